@@ -1043,8 +1043,16 @@ func c12RedisSide(w *c12World, cluster bool) (*c12Side, error) {
 	return s, nil
 }
 
-func c12KVSide(w *c12World, r *rand.Rand) (*c12Side, string) {
+// boundary: 0 = random configuration; 1 = a single shard of weight 1 (the smallest
+// valid total weight); 2 = every shard with weight 1.
+func c12KVSide(w *c12World, r *rand.Rand, boundary int) (*c12Side, string) {
 	n := 1 + r.Intn(len(w.shards))
+	switch boundary {
+	case 1:
+		n = 1
+	case 2:
+		n = len(w.shards)
+	}
 	perm := r.Perm(len(w.shards))[:n]
 	var conf kv.Config
 	var servers []*miniredis.Miniredis
@@ -1053,6 +1061,9 @@ func c12KVSide(w *c12World, r *rand.Rand) (*c12Side, string) {
 		wt := 1 + r.Intn(100)
 		if r.Intn(4) == 0 {
 			wt = 100
+		}
+		if boundary != 0 {
+			wt = 1
 		}
 		ws = append(ws, wt)
 		conf = append(conf, cache.NodeConfig{
